@@ -50,6 +50,11 @@ def explore(ctx):
         clines = ["NEW 0 std"] + ["EVAL 0 " + common.hexs("(quote %s)" % t) for t in layouts]
         clines += ["READ " + common.hexs(layouts[0])]
         cases.append({"lines": clines, "want": want, "layouts": layouts})
+    # (c) single data that are large in one dimension (nesting depth, number of dotted pairs, number of elements)
+    big = gen.big_datum_texts(ctx.rng, ctx.quick)
+    for kind, n, text in big:
+        cases.append({"lines": ["NEW 0 std", "READ " + common.hexs(text), "EVAL 0 " + common.hexs("(quote %s)" % text)],
+                      "want": [], "layouts": [], "big": "%s %d" % (kind, n)})
     results, ndis = common.run_cases(ctx, cases)
     wrong = 0
     for c, (ml, il, d) in zip(cases, results):
@@ -59,7 +64,7 @@ def explore(ctx):
                 if wrong <= 5:
                     ctx.violation({"lines": c["lines"], "meta": {"layout": lay, "want": w}}, ml, il,
                                   note="the datum read from this layout is not the tree it was rendered from")
-    kinds = {"lex strings": nlex, "read strings": len(reads), "trees": ntrees}
+    kinds = {"lex strings": nlex, "read strings": len(reads), "trees": ntrees, "big data": len(big)}
     errs = sum(1 for x in m[:nlex] if x.startswith("(err"))
     return {
         "evaluations": len(lines) + 4 * len(cases),
@@ -73,7 +78,8 @@ def explore(ctx):
                 "(integers incl. i32 bounds, ratios, decimals with exponents, booleans, characters, strings with "
                 "escapes, plain / peculiar / |quoted| identifiers, lists, dotted tails, vectors, quote) each rendered "
                 "under 3 random admissible layouts (no space where allowed, blanks, tabs, LF, CR LF, comments), quoted, "
-                "evaluated; the value must equal the tree for every layout. non-trivial = distinct string that "
+                "evaluated; the value must equal the tree for every layout; (c) single data nested 64-850 deep (lists, vectors, quotations, mixed), "
+                "with 100-1500 dotted pairs or dotted tails, with up to 6000 elements, read and quoted. non-trivial = distinct string that "
                 "lexes to two or more tokens, or a tree" % (maxlen, " plus seeded samples of length 4-9" if ctx.quick else "", ntrees),
         "exhaustive": True,
         "input_distribution": dict(kinds, **{"lex errors": errs}),
